@@ -41,7 +41,7 @@ func raKinds() []raKind {
 	}
 	return []raKind{
 		{"bloom-params", eqBloom(true), func(c *Ctx) (interface{}, string) {
-			ps := [][2]float64{{20, 0.05}, {100, 0.7}, {1, 0.5}, {50, 0.9}, {300, 0.001}}
+			ps := [][2]float64{{20, 0.05}, {100, 0.7}, {1, 0.5}, {50, 0.9}, {300, 0.001}, {10, 1.0}, {7, 0.999}}
 			p := ps[c.rng.Intn(len(ps))]
 			f, err := gostatix.NewRedisBloomFilterWithParameters(uint(p[0]), p[1])
 			if err != nil {
@@ -57,7 +57,7 @@ func raKinds() []raKind {
 			return f, f.GetMetadataKey()
 		}, bloomAttach},
 		{"cuckoo", eqCuckoo(true), func(c *Ctx) (interface{}, string) {
-			f, err := gostatix.NewCuckooFilterRedisWithRetries([]uint64{4, 8}[c.rng.Intn(2)], 2, 3, 10)
+			f, err := gostatix.NewCuckooFilterRedisWithRetries([]uint64{4, 8}[c.rng.Intn(2)], 2, 3, []uint64{10, 0, 1}[c.rng.Intn(3)])
 			if err != nil {
 				return nil, ""
 			}
@@ -105,7 +105,7 @@ func raKinds() []raKind {
 			return hllRedis{h}, nil
 		}},
 		{"topk", eqTopK(true), func(c *Ctx) (interface{}, string) {
-			t := gostatix.NewTopKRedis([]uint{1, 3, 5}[c.rng.Intn(3)], []float64{1, 0.5, 0.25}[c.rng.Intn(3)], []float64{0.5, 0.2}[c.rng.Intn(2)])
+			t := gostatix.NewTopKRedis([]uint{1, 3, 5}[c.rng.Intn(3)], []float64{1, 0.5, 0.25, 1.0 / 3}[c.rng.Intn(4)], []float64{0.5, 0.2, 0.1 / 3}[c.rng.Intn(3)])
 			if t == nil {
 				return nil, ""
 			}
